@@ -15,6 +15,7 @@ use temporal_rs::options::{Disambiguation, OffsetDisambiguation, RelativeTo, ToS
 use temporal_rs::partial::{PartialDate, PartialTime, PartialZonedDateTime};
 use temporal_rs::{Calendar, Instant, PlainDate, TimeZone, UtcOffset, ZonedDateTime};
 
+pub const CALS_FOR_STORM: [&str; 12] = ["iso8601", "iso8601", "iso8601", "gregory", "japanese", "hebrew", "chinese", "islamic-civil", "persian", "ethioaa", "roc", "buddhist"];
 pub const DISAMBIGS: [(Disambiguation, &str); 4] = [(Disambiguation::Compatible, "compatible"), (Disambiguation::Earlier, "earlier"), (Disambiguation::Later, "later"), (Disambiguation::Reject, "reject")];
 pub const OFFOPTS: [(OffsetDisambiguation, &str); 4] = [(OffsetDisambiguation::Use, "use"), (OffsetDisambiguation::Prefer, "prefer"), (OffsetDisambiguation::Ignore, "ignore"), (OffsetDisambiguation::Reject, "reject")];
 const MAXI: i128 = MAX_INSTANT;
